@@ -266,6 +266,7 @@ func (fr *Frame) setEdge(from, to *ssa.BasicBlock, pc *Term, st *State) {
 		fr.checkBackEdge(from, to, pc, st)
 		return
 	}
+	fr.checkLoopExit(from, to, pc, st)
 	if old, ok := fr.edges[key]; ok {
 		// two edges between the same blocks (e.g. if with same targets)
 		_, c := fr.x.B.Relativize([]*Term{old.pc, pc})
@@ -1778,4 +1779,53 @@ func (x *X) termEq(a, b *Term) *Term {
 		}
 	}
 	return x.B.Eq(a, b)
+}
+
+// checkLoopExit: "loop N: exit [label] e" clauses hold on every edge that
+// leaves loop N (the header's exit as well as every break).
+func (fr *Frame) checkLoopExit(from, to *ssa.BasicBlock, pc *Term, st *State) {
+	x := fr.x
+	if fr.contract == nil || !x.mode.Functional || !fr.isRoot || len(fr.contract.LoopExit) == 0 {
+		return
+	}
+	// leaving the function (return / panic blocks) is not "leaving the loop" in this sense
+	if len(to.Succs) == 0 {
+		return
+	}
+	for _, lp := range fr.li.Loops {
+		if !lp.Blocks[from] || lp.Blocks[to] {
+			continue
+		}
+		// only edges into the block(s) the loop condition itself exits to: a break or a
+		// fall-out lands there; a tail of the body that never loops back (and is therefore
+		// not part of the natural loop) is not an exit in the sense of the clause
+		natural := false
+		for _, s := range lp.Header.Succs {
+			if !lp.Blocks[s] && s == to {
+				natural = true
+			}
+		}
+		if !natural {
+			continue
+		}
+		for _, cl := range fr.contract.LoopExit[lp.Ordinal] {
+			if !x.active(cl) {
+				continue
+			}
+			if os.Getenv("GOVC_TRACE") != "" {
+				fmt.Fprintf(os.Stderr, "trace: loop-exit check loop %d edge %d(%s) -> %d(%s)\n", lp.Ordinal, from.Index, from.Comment, to.Index, to.Comment)
+			}
+			saved := fr.curBlock
+			fr.curBlock = from
+			t := fr.evalInvariant(cl, lp, st, nil)
+			fr.curBlock = saved
+			lbl := cl.Label
+			if lbl == "" {
+				lbl = truncate(cl.Src, 40)
+			}
+			o := x.oblige("loop-exit", fmt.Sprintf("loop%d:%s", lp.Ordinal, lbl), x.W.pos(firstPos(from)), pc, t)
+			o.Extra = map[string]string{"exit condition": cl.Src}
+			x.assume(pc, t, "loop exit condition "+cl.Src)
+		}
+	}
 }
